@@ -25,8 +25,8 @@ ORDER4 = ["A(i,j,k,l) = B(i,j,k,l)", "A(i,j,k,l) = B(l,k,j,i)", "A(i,j,k,l) = B(
           "a(i) = B(i,j,k,l) * c(j) * d(k) * e(l)", "A(i,j,k,l) = b(i) * c(j) * d(k) * e(l)"]
 
 PLAN = {
-    "quick": dict(shards=12, fmt=10, inp=2, rnd=1300, draws=3, jit_every=3, lattice=480),
-    "thorough": dict(shards=16, fmt=60, inp=3, rnd=16000, draws=4, jit_every=2, lattice=16000),
+    "quick": dict(shards=12, fmt=10, inp=2, rnd=1300, draws=3, jit_every=3, lattice=240, medium=240),
+    "thorough": dict(shards=16, fmt=60, inp=3, rnd=16000, draws=4, jit_every=2, lattice=16000, medium=8000),
 }
 
 
@@ -127,9 +127,15 @@ def shard(rec, tier, index, n_shards):
     for case in engine.lattice_cases(rng, plan["lattice"] // n_shards, 3):
         rec.count("lattice_cases")
         do(case)
+    for case in engine.medium_cases(rng, plan["medium"] // n_shards):
+        rec.count("medium_size_cases")
+        do(case)
+    for case in engine.high_order_cases(rng, 6 if tier == "quick" else 400):
+        rec.count("high_order_cases")
+        do(case)
     # bounded-exhaustive small shapes (engine.small_shapes): a seeded third in quick, all in thorough
     third = 1 if tier == "thorough" else 3
-    for case in engine.small_shape_cases(rng, index + n_shards * (rec.seed % third), n_shards * third, draws=4, out_modes=("s", "d")):
+    for case in engine.small_shape_cases(rng, index + n_shards * (rec.seed % third), n_shards * third, draws=3, out_modes=("s", "d")):
         rec.count("small_shape_cases")
         do(case)
 
